@@ -3,8 +3,8 @@ import IV.Model.CleanLine
 /-
 C08 — the password stage (insights/cleaner/password.py:12-36), first expression
 
-  re.sub(r"(password[a-zA-Z0-9_]*)(\s*\:\s*\"*\s*|\s*\"*\s*=\s*\"\s*|\s*=+\s*|\s*--md5+\s*|\s*)([a-zA-Z0-9_!@#$%^&*()+=/-]+)",
-         r"\1\2********", line)
+  re.sub(r"(password[a-zA-Z0-9_]*)(\s*\:\s*\"*\s*|\s*\"*\s*=\s*\"\s*|\s*=+\s*|\s*--md5+\s*|\s*)(SECRET+)",
+         r"\1\2********", line)       with SECRET = word characters, ! @ # $ % ^ & * ( ) + = / and '-'
 
 `pwMatch1_accepted`: on `password` + word characters + a listed separator (`PwSep`) + a secret
 (`Secret`) the model of the expression matches, keeps exactly key and separator and replaces exactly
